@@ -158,3 +158,6 @@ def run_shard(spec):
 
 def replay(doc):
     return pool_checks.replay(__import__(MOD, fromlist=["x"]), doc)
+
+
+RULE += ' Also (waves 8-9): chunks of 1.05 s with the delay sweep aimed at the replace thread, chunk limits that are no whole numbers (2.5), a chunk limit the worker sets itself in begin(), verbose=True, one generator used by two threads one after the other, the exhausted generator of the previous call released while the next call is read.'
